@@ -94,6 +94,14 @@ def seq_family():
         for op in ('add', 'sub', 'floordiv', 'lshift', 'gt'):
             out.append(['bin', op, ['un', 'len', sl], ['f', 'b']])
             out.append(['bin', op, ['c', 3], ['un', 'len', sl]])
+        cat = ['c', [9]] if sname == 's' else ['c', b'Q']
+        for g in gets[5:]:
+            # concatenation does not commute: constant + slice must stay constant-first
+            out.append(['bin', 'add', cat, g])
+            out.append(['bin', 'add', g, cat])
+            out.append(['bin', 'eq', ['bin', 'add', cat, g], ['bin', 'add', g, cat]])
+            out.append(['bin', 'mul', ['c', 2], g])
+            out.append(['bin', 'getitem', ['bin', 'add', cat, g], ['c', 0]])
         for g in gets[5:]:
             out.append(['un', 'len', g])
             out.append(['bin', 'getitem', g, ['c', 0]])
